@@ -95,6 +95,41 @@ def distance_scales(ctx, prog, rid):
 def _short(b):
     return b.short
 
+def _push_loop_fill(mg, mo):
+    """The returned vector of `mg` is built empty (Vec::new / with_capacity) and filled by ONE Vec::push site inside a `for` loop (R2, loop spelling of
+    collect(map)): returns the loop head, the push, the exhaustion edges of the head and what was decided about the loop, or None when the shape is not there."""
+    from rules import C04
+    rets = C04.value_alternatives(mo.of_local(0))
+    if len(rets) != 1 or not C04.is_vec_ctor(rets[0]) or rets[0][3].body is not mg:
+        return None
+    ps = C04.vec_pushes(mg, rets[0][3], harmless=(r'(^|::)Vec(<.*>)?::truncate$', r'DerefMut>::deref_mut$', r'(^|::)slice::(<.*>::)?sort(_unstable)?_by$'))
+    if not ps or len(ps) != 1:
+        return None
+    pu = ps[0]
+    hs = [h for h in mg.calls if h.callee and h.is_('re:Iterator>::next$') and mg.dominates(h.bb, pu.bb) and h.bb in mg.reach([pu.bb])]
+    inner = [h for h in hs if all(mg.dominates(o.bb, h.bb) for o in hs)]
+    if not inner:
+        return None
+    h = inner[0]
+    s_e, f_e = flow.outcome_edges(mg, h)
+    if not s_e or not f_e:
+        return None
+    starts = [e[1] for e in s_e]
+    inside = mg.reach(starts, avoid_blocks=[h.bb])
+    retb = set(mg.return_blocks())
+    once = h.bb not in mg.reach(starts, avoid_blocks=[pu.bb]) and pu.bb not in mg.reach(mg.succ(pu.bb), avoid_blocks=[h.bb]) and \
+        not any(h.bb not in mg.reach([x]) and retb & mg.reach([x]) for x in inside)
+    src = mo.of_operand(h.args[0])
+    el = mo.of_operand(pu.args[1])
+    entry = False
+    if el[0] == 'agg' and el[1].endswith('SearchResult') and len(el) > 3 and sorted(el[3] or []) == ['distance', 'doc_id']:
+        d_, i_ = el[2][el[3].index('distance')], el[2][el[3].index('doc_id')]
+        it = lambda t: t[1] if t[0] == 'field' and t[1][0] == 'field' and t[1][1][0] == 'downcast' and t[1][1][2] == 'Some' and t[1][1][1][0] == 'call' and \
+            len(t[1][1][1]) > 3 and t[1][1][1][3] is h else None
+        entry = i_[0] == 'field' and i_[2] == '.0' and d_[0] == 'field' and d_[2] == '.1' and it(i_) is not None and it(d_) is not None
+    return {'head': h, 'push': pu, 'exhaust': list(f_e), 'once': once, 'entry': entry, 'src': flow.render(src),
+            'from_map': 'HashMap' in flow.render(src) and 'hash::map::' in (h.callee or '')}
+
 
 def run(ctx, prog):
     ctx.not_decided = ['reported distance = true distance within tolerance (SIMD kernels, user-distance conversion)',
@@ -149,7 +184,17 @@ def run(ctx, prog):
     eff.define('collect', 're:Iterator::collect$')
     eff.define('sort', 're:slice::.*sort_by$', 're:::sort_by$', 're:::sort_unstable_by$')
     eff.define('truncate', 're:Vec<.*>::truncate$', 're:Vec::truncate$')
-    util.check_chain(ctx, 'C06.R2', mg, [util.Step('collect(map)', mg, eff.blocks(mg, 'collect')), util.Step('sort_by', mg, eff.blocks(mg, 'sort')),
+    first = util.Step('collect(map)', mg, eff.blocks(mg, 'collect'))
+    fill = None
+    if not first.blocks:
+        # no collect: the same step spelled as a loop — `let mut v = Vec::with_capacity(n); for (id, d) in merged { v.push(SearchResult { .. }) }`. The step is then
+        # "the fill loop ran to exhaustion": the sort is reachable only across the exhaustion edge of the loop head, and neither the head nor the push can run after it
+        fill = _push_loop_fill(mg, mo)
+        if fill is not None:
+            first = util.Step('collect(map)', mg, [], is_call=False)
+            first.blocks = sorted(set([fill['head'].bb, fill['push'].bb]))
+            first.succ = list(fill['exhaust'])
+    util.check_chain(ctx, 'C06.R2', mg, [first, util.Step('sort_by', mg, eff.blocks(mg, 'sort')),
                                          util.Step('truncate', mg, eff.blocks(mg, 'truncate'))], no_reorder=True)
     tr = mg.calls_to('re:::truncate$')
     if tr:
@@ -158,7 +203,14 @@ def run(ctx, prog):
                  and flow.render(mv.of_local(0)) == tv_, 'truncate(%s, %s); returns %s' % (flow.render(mv.of_operand(tr[0].args[0])), flow.render(mv.of_operand(tr[0].args[1])), flow.render(mv.of_local(0))))
     col = mg.calls_to('re:Iterator::collect$')
     src = flow.render(mo.of_operand(col[0].args[0])) if col else ''
-    ctx.inst('C06.R2', mg.short, 'results come out of the id-keyed map', bool(col) and 'HashMap' in src and any('HashMap<u64' in mg.locals[l_] for l_ in mg.varnames), 'collect source: %s' % src[:120])
+    if fill is None:
+        ctx.inst('C06.R2', mg.short, 'results come out of the id-keyed map', bool(col) and 'HashMap' in src and any('HashMap<u64' in mg.locals[l_] for l_ in mg.varnames), 'collect source: %s' % src[:120])
+    else:
+        # loop form: the returned vector receives elements only through that one push (C04.vec_pushes; sort / truncate neither add nor replace), the loop iterates the
+        # id-keyed map, and each iteration pushes exactly one SearchResult { doc_id: entry.0, distance: entry.1 } of the entry it was handed — one result per key
+        ctx.inst('C06.R2', mg.short, 'results come out of the id-keyed map', fill['from_map'] and fill['entry'] and fill['once'] and any('HashMap<u64' in mg.locals[l_] for l_ in mg.varnames),
+                 'filled by a loop over %s: iterates a hash map: %s; pushes SearchResult{key, value} of the entry: %s; exactly one push per entry: %s' % (
+                     fill['src'][:80], fill['from_map'], fill['entry'], fill['once']))
     hot_ins = [c for c in mg.calls if c.callee and re.search(r'HashMap<.*>::insert$|HashMap::insert$', c.callee)]
     cold_ins = [c for c in mg.calls if c.callee and re.search(r'Entry<.*>::or_insert$|Entry::or_insert$', c.callee)]
     ctx.inst('C06.R2', mg.short, 'hot entries first, cold entries only for absent ids', bool(hot_ins) and bool(cold_ins) and all(mg.dominates(h.bb, c.bb) or c.bb in mg.reach([h.bb]) for h in hot_ins for c in cold_ins)
@@ -228,14 +280,7 @@ def run(ctx, prog):
     for c in prog.callers_of('TieredEngine::merge_knn_results'):
         b = c.body
         of = flow.Origin(b)
-        alts = [flow.render(a) for a in flow.top_alternatives(of.of_operand(c.args[0]))]
-        ok = True
-        for a in alts:
-            if re.search(r'filter_hot_knn_results_to_canonical\(|^Vec::new\(\)$', a):
-                continue
-            cids = re.findall(r'closure:([^{ ]*\{closure#\d+\}(?:::\{closure#\d+\})*)', a)
-            if not any(fb.id.endswith(cid) and 'filter_hot_knn_results_to_canonical(' in flow.render(flow.Origin(fb).of_local(0)) for cid in cids for fb in prog.family(b)):
-                ok = False
+        ok = C04.hot_candidates_validated(prog, b, of.of_operand(c.args[0]))
         n_m += 1
         ctx.inst('C06.R3', b.short.split('::{')[0], 'merge #%d: hot candidates validated' % sum(1 for x in ctx.instances if x.get('config') == ctx.config and x['rule'] == 'C06.R3' and x['key'].startswith('C06.R3 | %s |' % b.short.split('::{')[0])), ok, '')
     ctx.floor('C06.R3', 'merge call sites', n_m, 3, '')
